@@ -235,3 +235,28 @@ func queryOf(urlText string) url.Values {
 }
 
 func stdB64(b []byte) string { return base64.StdEncoding.EncodeToString(b) }
+
+// sameXML reports whether two serialisations are the same XML document: both parse and their
+// canonical forms (exclusive canonicalisation: attribute order, <x/> versus <x></x>, quoting and
+// escaping spellings are immaterial) are equal.
+func sameXML(a, b []byte) bool {
+	da, db := etree.NewDocument(), etree.NewDocument()
+	if da.ReadFromBytes(a) != nil || db.ReadFromBytes(b) != nil || da.Root() == nil || db.Root() == nil {
+		return false
+	}
+	return bytes.Equal(excC14N(da.Root(), nil), excC14N(db.Root(), nil))
+}
+
+// encodedMessage is the encoded-message input of the redirect model: the value of the message
+// parameter of the emitted URL when it inflates to the same XML document as the message element
+// (which compression parameters and which serialisation spelling were used is immaterial), else
+// the harness's own encoding of the element (so that a wrong or missing parameter is a mismatch).
+func encodedMessage(urlText, param string, xmlb []byte) string {
+	if vs := queryOf(urlText)[param]; len(vs) > 0 {
+		v := vs[len(vs)-1]
+		if x, err := inflate64(v); err == nil && sameXML(x, xmlb) {
+			return v
+		}
+	}
+	return deflate64(xmlb)
+}
